@@ -198,6 +198,47 @@ def eq_literal_text_cases(rng, _n):
     return cases
 
 
+def range_boundary_cases(rng, _n):
+    """Integer and float ranges of every shape against values at and next to every bound (next to = 1 for integers,
+    0.5 for floats): the verdict is Rust's own range membership."""
+    import tgen
+    cases = []
+    k = 0
+
+    def add(ty, lit, sx, lo, hi, incl, vals):
+        nonlocal k
+        txt = ("" if lo is None else lit(lo)) + ("..=" if incl else "..") + ("" if hi is None else lit(hi))
+        for x in vals:
+            for wrap in ("%s", "Some(%s)"):
+                c = t3.Case()
+                c.id = k
+                k += 1
+                c.forms = {"range-boundary": 1}
+                c.perturbed = True
+                c.meanings = "(meanings (r %s %s %s %s))" % (tgen.hexs(tgen.squash(txt)), "none" if lo is None else sx(lo), "none" if hi is None else sx(hi), "true" if incl else "false")
+                vt = lit(x) + ("" if ty == "f64" else ty)
+                if wrap == "%s":
+                    t3.finish_case(c, "", ty, vt, sx(x), txt)
+                else:
+                    t3.finish_case(c, "", "Option<%s>" % ty, "Some(%s)" % vt, "(adt %s (names) (vals %s))" % (tgen.hexs("Some"), sx(x)), wrap % txt)
+                cases.append(c)
+
+    ilit = lambda v: str(v)
+    isx = lambda v: "(int %d)" % v
+    flit = lambda v: repr(float(v))
+    fsx = lambda v: "(dec %s)" % repr(float(v))
+    for (lo, hi) in ((3, 9), (0, 100)):
+        vals = sorted({lo - 1, lo, lo + 1, hi - 1, hi, hi + 1})
+        for (a, b, incl) in ((lo, hi, False), (lo, hi, True), (None, hi, False), (None, hi, True), (lo, None, False)):
+            add("i32", ilit, isx, a, b, incl, vals)
+    for (lo, hi) in ((0.0, 100.0), (1.5, 2.5)):
+        vals = sorted({lo - 0.5, lo, lo + 0.5, hi - 0.5, hi - 0.25, hi, hi + 0.5})
+        for (a, b, incl) in ((lo, hi, False), (lo, hi, True), (None, hi, False), (lo, None, False)):
+            add("f64", flit, fsx, a, b, incl, vals)
+    add("u8", ilit, isx, 0, 255, True, [0, 254, 255])
+    return cases
+
+
 def check(ck, aspect, theorems, t2_parts=("body", "status", "validity")):
     ck.prove(theorems)
     ck.build_harness("inproc")
@@ -251,7 +292,8 @@ def check(ck, aspect, theorems, t2_parts=("body", "status", "validity")):
                                 ("set-history", set_history_cases, "matching set assertions after earlier set assertions on the same thread"),
                                 ("map-wildcard-value", map_wild_cases, "map entries whose value pattern is `_`: the key is still required"),
                                 ("wildcard-struct-sibling", wildcard_shadow_cases, "a wildcard struct next to a sibling field of the same name"),
-                                ("eq-literal-text", eq_literal_text_cases, "expected expressions with blanks and `::` inside string literals")):
+                                ("eq-literal-text", eq_literal_text_cases, "expected expressions with blanks and `::` inside string literals"),
+                                ("range-boundary", range_boundary_cases, "integer and float ranges against values at and next to every bound")):
         fam = t3.run_corpus(ck, name, 0, per_bin=40, positions=maker)
         stats, mism = t3.compare(ck, fam, name)
         for m in mism:
